@@ -76,11 +76,34 @@ def plan_C02(run):
                     "posterior values of that slot, inputs all-updated or all-untouched)"}
 
 
+def plan_C03(run):
+    n = q(run, 300, 6000)
+    campaign(run, "order-groups", {"C03"}, lambda s, r: drivers.order_groups(s, r, n))
+    run.require_classes(["group:C03:order", "kind=PL", "kind=BTF", "kind=BTP", "kind=TMF", "kind=TMP", "ties", "enc=scores", "enc=ranks"], "order-groups")
+    return {"rule": "one game rated under 8 differently written but order-equivalent outcome arguments (ints, floats, mixed, "
+                    "negative, bools, 1e15, 2^53 neighbours, -0.0, scores, omitted); the specification decides equivalence "
+                    "(Outcome!SameOrder), results must be bit-identical"}
+
+
+def plan_C04(run):
+    n = q(run, 120, 2500)
+    upto = q(run, 4, 5)
+    campaign(run, "perm-groups", {"C04"}, lambda s, r: drivers.perm_groups(s, r, n, "C04", ops=("rate",), exhaustive_upto=upto, max_teams=q(run, 6, 8)))
+    run.require_classes(["group:C04:perm", "kind=PL", "kind=BTF", "kind=BTP", "kind=TMF", "kind=TMP", "ties", "teams"], "perm-groups")
+    return {"rule": "a game and its presentations under team permutations (all n! for n <= %d, sampled above) with members "
+                    "permuted; posterior of every player compared across presentations within twice the budget; partial pairing: "
+                    "only permutations keeping tied teams in relative order" % upto}
+
+
 def plan_C05(run):
-    n = q(run, 2500, 40000)
+    n = q(run, 1500, 30000)
     campaign(run, "rate-campaign", {"C05"}, lambda s, r: drivers.rate_campaign(s, r, n))
     run.require_classes(RATE_CLASSES, "rate-campaign")
-    return {"rule": "random rate() calls; single-game clauses of C05 (sole winner/loser, team moves together, proportionality)"}
+    m = q(run, 250, 5000)
+    campaign(run, "outcome-groups", {"C05"}, lambda s, r: drivers.outcome_groups(s, r, m))
+    run.require_classes(["group:C05:draw", "group:C05:loss", "group:C05:swap"], "outcome-groups")
+    return {"rule": "single-game clauses on random rate() calls (sole winner/loser, team moves together, proportionality); "
+                    "two-team games under win/draw/loss; games without ties with two teams exchanging places"}
 
 
 def plan_C06(run):
@@ -105,26 +128,115 @@ def plan_C08(run):
     return {"rule": "random valid games over the numeric domain incl. boundaries; all four operations must return finite values"}
 
 
-def plan_predict(prop):
-    def plan(run):
-        n = q(run, 1500, 30000)
-        campaign(run, "predict-campaign", {prop}, lambda s, r: drivers.predict_campaign(s, r, n))
-        run.require_classes(["op=win", "op=draw", "op=rank", "n=2", "n=3", "n=8"], "predict-campaign")
-        return {"rule": "random valid games, all three predictions on each; five models"}
-    return plan
+PRED_CLASSES = ["op=win", "op=draw", "op=rank", "n=2", "n=3", "n=8", "kind=PL", "kind=BTF", "kind=BTP", "kind=TMF", "kind=TMP"]
+
+
+def plan_C09(run):
+    n = q(run, 800, 20000)
+    campaign(run, "predict-campaign", {"C09"}, lambda s, r: drivers.predict_campaign(s, r, n))
+    run.require_classes(PRED_CLASSES, "predict-campaign")
+    m = q(run, 150, 3000)
+    campaign(run, "perm-groups", {"C09"}, lambda s, r: drivers.perm_groups(s, r, m, "C09", ops=("win",), exhaustive_upto=q(run, 3, 5), max_teams=8))
+    campaign(run, "increments", {"C09"}, lambda s, r: drivers.predict_relations(s, r, m))
+    run.require_classes(["group:C09:perm", "group:C09:inc"], "relations")
+    return {"rule": "predict_win on random games: distribution clauses; permuted presentations; one member's mu raised by a ladder of steps from 1 ulp to 10 beta"}
+
+
+def plan_C10(run):
+    n = q(run, 800, 20000)
+    campaign(run, "predict-campaign", {"C10"}, lambda s, r: drivers.predict_campaign(s, r, n))
+    run.require_classes(PRED_CLASSES, "predict-campaign")
+    m = q(run, 150, 3000)
+    campaign(run, "perm-groups", {"C10"}, lambda s, r: drivers.perm_groups(s, r, m, "C10", ops=("draw",), exhaustive_upto=q(run, 3, 5), max_teams=8))
+    campaign(run, "gap-equalised", {"C10"}, lambda s, r: drivers.predict_relations(s, r, m))
+    run.require_classes(["group:C10:perm", "group:C10:gap", "group:C10:equalised"], "relations")
+    return {"rule": "predict_draw on random games: range; order independence; two-team widening gaps; equalised totals",
+            "assumptions": ["sigma >= 1e-4 beta (below 1e-8 beta the two-team value is 1 + 4e-16, DESIGN 2)"]}
+
+
+def plan_C11(run):
+    n = q(run, 800, 20000)
+    campaign(run, "predict-campaign", {"C11"}, lambda s, r: drivers.predict_campaign(s, r, n))
+    run.require_classes(PRED_CLASSES, "predict-campaign")
+    m = q(run, 200, 4000)
+    campaign(run, "rank-plus-draw", {"C11"}, lambda s, r: drivers.predict_relations(s, r, m))
+    run.require_classes(["group:C11:rank_draw"], "relations")
+    return {"rule": "predict_rank on random games incl. exactly identical teams: rank/probability consistency on the returned floats; rank + draw = 1 for n >= 3"}
+
+
+def plan_C12(run):
+    n = q(run, 1200, 30000)
+    campaign(run, "predict-campaign", {"C12"}, lambda s, r: drivers.predict_campaign(s, r, n))
+    run.require_classes(PRED_CLASSES, "predict-campaign")
+    return {"rule": "all three predictions on random games against the 40-digit closed forms of Predict.tla, 1e-9 absolute",
+            "assumptions": ["predict_rank on two teams uses n*beta^2 (the n-team form); band probability as coded (DESIGN 3.2)"]}
 
 
 def plan_C13(run):
-    n = q(run, 1500, 20000)
-    campaign(run, "rate-campaign", {"C13"}, lambda s, r: drivers.rate_campaign(s, r, n))
-    return {"rule": "well-formed calls are accepted (malformed grammar: see stage list)"}
+    n = q(run, 6, 120)
+    campaign(run, "malformed-grammar", {"C13"}, lambda s, r: drivers.malformed_campaign(s, r, n))
+    run.require_classes(["malformed", "raise:TypeError", "raise:ValueError", "ok", "op=win", "op=draw", "op=rank"], "malformed-grammar")
+    m = q(run, 600, 10000)
+    campaign(run, "rate-campaign", {"C13"}, lambda s, r: drivers.rate_campaign(s, r, m))
+    return {"rule": "16 substituted values at every position of teams / ranks / scores of valid games, wrong lengths, too few "
+                    "teams, empty teams, both selectors, unusual well-formed selectors; four operations; the specification "
+                    "(PyVal!WFRateCall, read from the property's sentence) decides which calls are malformed",
+            "assumptions": ["falsy non-list selectors (0, '', ()) are treated by the library as omitted and are not generated",
+                            "acceptance of well-formed calls is demanded on the numeric domain (sigma = 0 with tau = 0 is outside it)"]}
 
 
 def plan_C14(run):
-    n = q(run, 1500, 20000)
-    campaign(run, "rate-campaign", {"C14"}, lambda s, r: drivers.rate_campaign(s, r, n))
-    campaign(run, "predict-campaign", {"C14"}, lambda s, r: drivers.predict_campaign(s, r, n // 3))
-    return {"rule": "model attributes compared before/after every call"}
+    n = q(run, 150, 3000)
+    campaign(run, "history-groups", {"C14"}, lambda s, r: drivers.same_groups(s, r, n))
+    run.require_classes(["group:C14:same"], "history-groups")
+    m = q(run, 600, 10000)
+    campaign(run, "rate-campaign", {"C14"}, lambda s, r: drivers.rate_campaign(s, r, m))
+    campaign(run, "predict-campaign", {"C14"}, lambda s, r: drivers.predict_campaign(s, r, m // 3))
+    return {"rule": "the same call on a fresh model and on a model with a history of calls with every per-call option, "
+                    "with different ids / names / objects: bit-identical results; model attributes compared around every call"}
+
+
+def plan_C15(run):
+    n = q(run, 300, 6000)
+    campaign(run, "effopts-groups", {"C15"}, lambda s, r: drivers.effopts_groups(s, r, n))
+    run.require_classes(["group:C15:effopts", "clamp", "limit", "kind=PL", "kind=BTF", "kind=BTP", "kind=TMF", "kind=TMP"], "effopts-groups")
+    return {"rule": "M(tau=t, limit_sigma=b).rate(g) against M(other).rate(g, tau=t, limit_sigma=b), each option alone, and explicit None; "
+                    "t in {0, 0.0, 1e-9 beta, default, 10 beta, random}; bit-identical results"}
+
+
+def plan_C16(run):
+    n = q(run, 100, 2000)
+    campaign(run, "scale-groups", {"C16"}, lambda s, r: drivers.scale_groups(s, r, n))
+    run.require_classes(["group:C16:scaled", "group:C16:shifted"], "scale-groups")
+    return {"rule": "games rescaled by k in {2^-10, 2^10, 1e-3, 0.3, 7, 1e3, random} (model mu/sigma/beta/tau with them) and "
+                    "shifted by constants; rate for PL/BT within twice the budget, all predictions within 1e-12"}
+
+
+def plan_C18(run):
+    n = q(run, 150, 3000)
+    campaign(run, "object-campaign", {"C18"}, lambda s, r: drivers.object_campaign(s, r, n))
+    run.require_classes(["op=cmp", "op=ordinal", "op=sorted", "raise:ValueError"], "object-campaign")
+    return {"rule": "comparisons of pairs from a grid with many equal ordinals and random floats, six operators, foreign operands "
+                    "(other classes' ratings, int, float, str, None, tuple, list); ordinal(z); sorted()"}
+
+
+def plan_C19(run):
+    n = q(run, 80, 1500)
+    campaign(run, "model-groups", {"C19"}, lambda s, r: drivers.model_groups(s, r, n))
+    campaign(run, "api", {"C19"}, lambda s, r: drivers.api_groups(s))
+    campaign(run, "hashes", {"C19"}, lambda s, r: drivers.object_campaign(s, r, q(run, 40, 400)))
+    run.require_classes(["group:C19:model", "group:C19:same", "op=api", "op=hash"], "model-groups")
+    return {"rule": "the same call (rate and the three predictions, value-identical ratings, same parameters) on all five classes; "
+                    "operation tables and signatures compared; hashes of equal (id, mu, sigma) compared across classes"}
+
+
+def plan_C20(run):
+    n = q(run, 120, 2500)
+    campaign(run, "object-campaign", {"C20"}, lambda s, r: drivers.object_campaign(s, r, n))
+    campaign(run, "twin-leagues", {"C20"}, lambda s, r: drivers.restore_groups(s, r, n))
+    run.require_classes(["op=rating", "op=create", "op=deepcopy", "group:C20:same"], "object-campaign")
+    return {"rule": "constructors with None/0/-0.0/negative/huge values and names; deepcopy of ratings and nested lists; twin leagues "
+                    "(live objects vs rebuilt from stored (mu, sigma) by create_rating / rating / deepcopy before every game)"}
 
 
 PLANS = {
@@ -134,10 +246,17 @@ PLANS = {
     "C06": plan_C06,
     "C07": plan_C07,
     "C08": plan_C08,
-    "C09": plan_predict("C09"),
-    "C10": plan_predict("C10"),
-    "C11": plan_predict("C11"),
-    "C12": plan_predict("C12"),
+    "C03": plan_C03,
+    "C04": plan_C04,
+    "C09": plan_C09,
+    "C10": plan_C10,
+    "C11": plan_C11,
+    "C12": plan_C12,
     "C13": plan_C13,
     "C14": plan_C14,
+    "C15": plan_C15,
+    "C16": plan_C16,
+    "C18": plan_C18,
+    "C19": plan_C19,
+    "C20": plan_C20,
 }
